@@ -1,7 +1,1526 @@
-//! C05 — not built yet.
+//! C05 — a persistent database reopens to exactly the state it was closed with.
+//!
+//! Sub-checks
+//! * `reopen`        model-based histories over a persistent `GrafeoDB` (every mutating direct-API call with
+//!                   every value type, mutating statements, `wal_checkpoint()`, 1–5 open/close cycles, every
+//!                   durability mode); after every reopen `dump(db) == dump(model)`; ids handed out never collide.
+//! * `wal_manager`   records logged directly through `WalManager` (max_log_size from 64 B: forced rotations,
+//!                   explicit `rotate()`, commit+checkpoint at generated positions, reopen cycles) and read back
+//!                   through `WalRecovery::recover()` the way `GrafeoDB::with_config` does.
+//! * `rotation_64mib` the database-level rotation (only reachable by writing > 64 MiB of log).
+//!
+//! The history generator, abstract model and canonical dump are reused by C06 (`crate::props::c05::…`).
 
-use crate::driver::Run;
+use std::collections::{BTreeMap, BTreeSet};
+use std::path::Path;
+
+use proptest::prelude::*;
+use serde::{Deserialize, Serialize};
+
+use grafeo_adapters::storage::wal::{
+    DurabilityMode as WalDurability, WalConfig, WalManager, WalRecord, WalRecovery,
+};
+use grafeo_common::types::{EdgeId, EpochId, NodeId, PropertyKey, Timestamp, TxId, Value};
+use grafeo_engine::config::{Config, DurabilityMode};
+use grafeo_engine::GrafeoDB;
+
+use crate::driver::{CaseResult, Failure, Findings, Run, fail, guard, hash_dbg, ok, pick, scratch_dir};
+
+// ------------------------------------------------------------------------------------------------
+// Values (plain data; floats as bit patterns so that NaN payloads survive the replay file)
+// ------------------------------------------------------------------------------------------------
+
+#[derive(Debug, Clone, PartialEq, Serialize, Deserialize)]
+pub enum V {
+    Null,
+    Bool(bool),
+    Int(i64),
+    /// f64 bit pattern
+    F(u64),
+    Str(String),
+    Bytes(Vec<u8>),
+    /// microseconds
+    Ts(i64),
+    /// f32 bit patterns
+    Vector(Vec<u32>),
+    List(Vec<V>),
+    Map(Vec<(String, V)>),
+}
+
+pub fn to_value(v: &V) -> Value {
+    match v {
+        V::Null => Value::Null,
+        V::Bool(b) => Value::Bool(*b),
+        V::Int(i) => Value::Int64(*i),
+        V::F(bits) => Value::Float64(f64::from_bits(*bits)),
+        V::Str(s) => Value::from(s.as_str()),
+        V::Bytes(b) => Value::from(b.clone()),
+        V::Ts(t) => Value::Timestamp(Timestamp::from_micros(*t)),
+        V::Vector(x) => {
+            let f: Vec<f32> = x.iter().map(|b| f32::from_bits(*b)).collect();
+            Value::from(f.as_slice())
+        }
+        V::List(l) => Value::List(l.iter().map(to_value).collect::<Vec<_>>().into()),
+        V::Map(m) => {
+            let mut bm = BTreeMap::new();
+            for (k, v) in m {
+                bm.insert(PropertyKey::new(k.as_str()), to_value(v));
+            }
+            Value::Map(std::sync::Arc::new(bm))
+        }
+    }
+}
+
+/// Canonical text of a value: floats bitwise, every variant tagged, maps in key order.
+pub fn canon(v: &Value) -> String {
+    let mut s = String::new();
+    canon_into(v, &mut s);
+    s
+}
+
+fn canon_into(v: &Value, o: &mut String) {
+    use std::fmt::Write;
+    match v {
+        Value::Null => o.push_str("null"),
+        Value::Bool(b) => {
+            let _ = write!(o, "b:{b}");
+        }
+        Value::Int64(i) => {
+            let _ = write!(o, "i:{i}");
+        }
+        Value::Float64(f) => {
+            let _ = write!(o, "f:{:016x}", f.to_bits());
+        }
+        Value::String(s) => {
+            let _ = write!(o, "s:{:?}", s.as_str());
+        }
+        Value::Bytes(b) => {
+            o.push_str("y:");
+            for x in b.iter() {
+                let _ = write!(o, "{x:02x}");
+            }
+        }
+        Value::Timestamp(t) => {
+            let _ = write!(o, "t:{}", t.as_micros());
+        }
+        Value::List(l) => {
+            o.push_str("l:[");
+            for (i, x) in l.iter().enumerate() {
+                if i > 0 {
+                    o.push(',');
+                }
+                canon_into(x, o);
+            }
+            o.push(']');
+        }
+        Value::Map(m) => {
+            o.push_str("m:{");
+            for (i, (k, x)) in m.iter().enumerate() {
+                if i > 0 {
+                    o.push(',');
+                }
+                let _ = write!(o, "{:?}=", k.as_str());
+                canon_into(x, o);
+            }
+            o.push('}');
+        }
+        Value::Vector(x) => {
+            o.push_str("v:[");
+            for (i, f) in x.iter().enumerate() {
+                if i > 0 {
+                    o.push(',');
+                }
+                let _ = write!(o, "{:08x}", f.to_bits());
+            }
+            o.push(']');
+        }
+    }
+}
+
+pub fn canon_v(v: &V) -> String {
+    canon(&to_value(v))
+}
+
+fn f64_bits() -> impl Strategy<Value = u64> {
+    prop_oneof![
+        3 => (-1000i32..1000).prop_map(|i| (f64::from(i) / 8.0).to_bits()),
+        1 => Just(0.0f64.to_bits()),
+        1 => Just((-0.0f64).to_bits()),
+        1 => Just(f64::INFINITY.to_bits()),
+        1 => Just(f64::NEG_INFINITY.to_bits()),
+        1 => Just(f64::NAN.to_bits()),
+        1 => Just(0x7ff8_0000_0000_0001u64),  // quiet NaN with payload
+        1 => Just(0xfff4_0000_dead_beefu64),  // negative signalling NaN with payload
+        1 => Just(1u64),                       // smallest subnormal
+        1 => Just(f64::MAX.to_bits()),
+        1 => Just(9_007_199_254_740_993.0f64.to_bits()),
+        1 => any::<u64>(),
+    ]
+}
+
+fn f32_bits() -> impl Strategy<Value = u32> {
+    prop_oneof![
+        3 => (-100i16..100).prop_map(|i| (f32::from(i) / 4.0).to_bits()),
+        1 => Just(f32::NAN.to_bits()),
+        1 => Just(0x7fc0_0001u32),
+        1 => Just((-0.0f32).to_bits()),
+        1 => Just(f32::INFINITY.to_bits()),
+        1 => any::<u32>(),
+    ]
+}
+
+fn string_value() -> impl Strategy<Value = String> {
+    prop_oneof![
+        2 => Just(String::new()),
+        4 => "[a-z]{1,6}",
+        1 => Just("héllo wörld ✓ 日本".to_string()),
+        1 => Just("quote'\"\\ \n\t\0 end".to_string()),
+        1 => (200usize..600).prop_map(|n| "x".repeat(n)),
+    ]
+}
+
+fn leaf_value() -> impl Strategy<Value = V> {
+    prop_oneof![
+        1 => Just(V::Null),
+        1 => any::<bool>().prop_map(V::Bool),
+        3 => prop_oneof![
+            3 => (-50i64..50).prop_map(V::Int),
+            1 => Just(V::Int(i64::MIN)), 1 => Just(V::Int(i64::MAX)),
+            1 => Just(V::Int((1i64 << 53) + 1)), 1 => Just(V::Int(-(1i64 << 53) - 1)),
+            1 => any::<i64>().prop_map(V::Int),
+        ],
+        3 => f64_bits().prop_map(V::F),
+        3 => string_value().prop_map(V::Str),
+        2 => prop_oneof![
+            1 => Just(V::Bytes(vec![])),
+            2 => proptest::collection::vec(any::<u8>(), 0..24).prop_map(V::Bytes),
+            1 => Just(V::Bytes(vec![0, 255, 0, 10, 13])),
+        ],
+        2 => prop_oneof![
+            2 => (-1_000_000i64..1_000_000).prop_map(V::Ts),
+            1 => Just(V::Ts(i64::MIN)), 1 => Just(V::Ts(i64::MAX)), 1 => Just(V::Ts(0)),
+        ],
+        2 => proptest::collection::vec(f32_bits(), 0..6).prop_map(V::Vector),
+    ]
+}
+
+pub fn value_strategy() -> impl Strategy<Value = V> {
+    leaf_value().prop_recursive(3, 12, 4, |inner| {
+        prop_oneof![
+            1 => proptest::collection::vec(inner.clone(), 0..4).prop_map(V::List),
+            1 => proptest::collection::vec(("[a-c]{0,2}", inner), 0..4).prop_map(V::Map),
+        ]
+    })
+}
+
+// ------------------------------------------------------------------------------------------------
+// Canonical dump
+// ------------------------------------------------------------------------------------------------
+
+#[derive(Debug, Clone, PartialEq, Eq, Default, Serialize, Deserialize)]
+pub struct NodeDump {
+    pub id: u64,
+    pub labels: Vec<String>,
+    pub props: Vec<(String, String)>,
+}
+
+#[derive(Debug, Clone, PartialEq, Eq, Default, Serialize, Deserialize)]
+pub struct EdgeDump {
+    pub id: u64,
+    pub src: u64,
+    pub ty: String,
+    pub dst: u64,
+    pub props: Vec<(String, String)>,
+}
+
+#[derive(Debug, Clone, PartialEq, Eq, Default, Serialize, Deserialize)]
+pub struct Dump {
+    pub nodes: Vec<NodeDump>,
+    pub edges: Vec<EdgeDump>,
+}
+
+/// Canonical dump of a live database (sorted by id; labels and properties sorted).
+pub fn dump_db(db: &GrafeoDB) -> Dump {
+    let mut nodes: Vec<NodeDump> = db
+        .iter_nodes()
+        .map(|n| {
+            let mut labels: Vec<String> = n.labels.iter().map(|l| l.to_string()).collect();
+            labels.sort();
+            let mut props: Vec<(String, String)> =
+                n.properties.iter().map(|(k, v)| (k.as_str().to_string(), canon(v))).collect();
+            props.sort();
+            NodeDump { id: n.id.as_u64(), labels, props }
+        })
+        .collect();
+    nodes.sort_by_key(|n| n.id);
+    let mut edges: Vec<EdgeDump> = db
+        .iter_edges()
+        .map(|e| {
+            let mut props: Vec<(String, String)> =
+                e.properties.iter().map(|(k, v)| (k.as_str().to_string(), canon(v))).collect();
+            props.sort();
+            EdgeDump { id: e.id.as_u64(), src: e.src.as_u64(), ty: e.edge_type.to_string(), dst: e.dst.as_u64(), props }
+        })
+        .collect();
+    edges.sort_by_key(|e| e.id);
+    Dump { nodes, edges }
+}
+
+/// Short description of the first difference between two dumps.
+pub fn diff_dumps(got: &Dump, want: &Dump) -> String {
+    let gn: BTreeMap<u64, &NodeDump> = got.nodes.iter().map(|n| (n.id, n)).collect();
+    let wn: BTreeMap<u64, &NodeDump> = want.nodes.iter().map(|n| (n.id, n)).collect();
+    let mut out = Vec::new();
+    if got.nodes.len() != gn.len() {
+        out.push("duplicate node ids in dump".to_string());
+    }
+    for (id, w) in &wn {
+        match gn.get(id) {
+            None => out.push(format!("node {id} missing (want {w:?})")),
+            Some(g) if g != w => out.push(format!("node {id}: got {g:?} want {w:?}")),
+            _ => {}
+        }
+    }
+    for (id, g) in &gn {
+        if !wn.contains_key(id) {
+            out.push(format!("extra node {id}: {g:?}"));
+        }
+    }
+    let ge: BTreeMap<u64, &EdgeDump> = got.edges.iter().map(|n| (n.id, n)).collect();
+    let we: BTreeMap<u64, &EdgeDump> = want.edges.iter().map(|n| (n.id, n)).collect();
+    for (id, w) in &we {
+        match ge.get(id) {
+            None => out.push(format!("edge {id} missing (want {w:?})")),
+            Some(g) if g != w => out.push(format!("edge {id}: got {g:?} want {w:?}")),
+            _ => {}
+        }
+    }
+    for (id, g) in &ge {
+        if !we.contains_key(id) {
+            out.push(format!("extra edge {id}: {g:?}"));
+        }
+    }
+    let n = out.len();
+    out.truncate(6);
+    format!("{n} differences: {}", out.join("; "))
+}
+
+// ------------------------------------------------------------------------------------------------
+// Abstract model
+// ------------------------------------------------------------------------------------------------
+
+#[derive(Debug, Clone, Default, PartialEq, Eq)]
+pub struct MNode {
+    pub labels: BTreeSet<String>,
+    pub props: BTreeMap<String, String>,
+}
+
+#[derive(Debug, Clone, Default, PartialEq, Eq)]
+pub struct MEdge {
+    pub src: u64,
+    pub dst: u64,
+    pub ty: String,
+    pub props: BTreeMap<String, String>,
+}
+
+/// Abstract LPG: deleting a node does not cascade to its edges (LpgStore::delete_node: "Caller should use
+/// delete_node_edges() first if detach is needed").
+#[derive(Debug, Clone, Default)]
+pub struct Model {
+    pub nodes: BTreeMap<u64, MNode>,
+    pub edges: BTreeMap<u64, MEdge>,
+    /// every node / edge id ever handed out or seen (live or deleted)
+    pub ever_nodes: BTreeSet<u64>,
+    pub ever_edges: BTreeSet<u64>,
+    /// Properties written to an id that is not (or no longer) a live entity. The store keys properties by id only:
+    /// they are unobservable until an entity with that id is created (only possible when an id is handed out
+    /// again, e.g. after unlogged statement-created entities were lost), and a delete clears them.
+    pub hidden_node_props: BTreeMap<u64, BTreeMap<String, String>>,
+    pub hidden_edge_props: BTreeMap<u64, BTreeMap<String, String>>,
+}
+
+impl Model {
+    pub fn from_dump(d: &Dump) -> Model {
+        let mut m = Model::default();
+        for n in &d.nodes {
+            m.nodes.insert(
+                n.id,
+                MNode { labels: n.labels.iter().cloned().collect(), props: n.props.iter().cloned().collect() },
+            );
+            m.ever_nodes.insert(n.id);
+        }
+        for e in &d.edges {
+            m.edges.insert(
+                e.id,
+                MEdge { src: e.src, dst: e.dst, ty: e.ty.clone(), props: e.props.iter().cloned().collect() },
+            );
+            m.ever_edges.insert(e.id);
+        }
+        m
+    }
+
+    pub fn dump(&self) -> Dump {
+        Dump {
+            nodes: self
+                .nodes
+                .iter()
+                .map(|(id, n)| NodeDump {
+                    id: *id,
+                    labels: n.labels.iter().cloned().collect(),
+                    props: n.props.iter().map(|(k, v)| (k.clone(), v.clone())).collect(),
+                })
+                .collect(),
+            edges: self
+                .edges
+                .iter()
+                .map(|(id, e)| EdgeDump {
+                    id: *id,
+                    src: e.src,
+                    ty: e.ty.clone(),
+                    dst: e.dst,
+                    props: e.props.iter().map(|(k, v)| (k.clone(), v.clone())).collect(),
+                })
+                .collect(),
+        }
+    }
+
+    pub fn dead_nodes(&self) -> Vec<u64> {
+        self.ever_nodes.iter().copied().filter(|i| !self.nodes.contains_key(i)).collect()
+    }
+    pub fn dead_edges(&self) -> Vec<u64> {
+        self.ever_edges.iter().copied().filter(|i| !self.edges.contains_key(i)).collect()
+    }
+
+    /// Applies a concrete (id-resolved) operation. Total: operations on absent entities are no-ops, exactly as
+    /// the store treats them (properties of an absent entity are not observable).
+    pub fn apply(&mut self, c: &COp) {
+        match c {
+            COp::CreateNode { id, labels, props } => {
+                let mut n = MNode::default();
+                if let Some(h) = self.hidden_node_props.remove(id) {
+                    n.props = h;
+                }
+                for l in labels {
+                    n.labels.insert(l.clone());
+                }
+                for (k, v) in props {
+                    n.props.insert(k.clone(), v.clone());
+                }
+                self.nodes.insert(*id, n);
+                self.ever_nodes.insert(*id);
+            }
+            COp::DeleteNode { id } => {
+                if self.nodes.remove(id).is_some() {
+                    self.hidden_node_props.remove(id);
+                }
+            }
+            COp::CreateEdge { id, src, dst, ty, props } => {
+                let mut e = MEdge { src: *src, dst: *dst, ty: ty.clone(), props: BTreeMap::new() };
+                if let Some(h) = self.hidden_edge_props.remove(id) {
+                    e.props = h;
+                }
+                for (k, v) in props {
+                    e.props.insert(k.clone(), v.clone());
+                }
+                self.edges.insert(*id, e);
+                self.ever_edges.insert(*id);
+            }
+            COp::DeleteEdge { id } => {
+                if self.edges.remove(id).is_some() {
+                    self.hidden_edge_props.remove(id);
+                }
+            }
+            COp::SetNodeProp { id, key, val } => {
+                if let Some(n) = self.nodes.get_mut(id) {
+                    n.props.insert(key.clone(), val.clone());
+                } else {
+                    self.hidden_node_props.entry(*id).or_default().insert(key.clone(), val.clone());
+                }
+            }
+            COp::SetEdgeProp { id, key, val } => {
+                if let Some(e) = self.edges.get_mut(id) {
+                    e.props.insert(key.clone(), val.clone());
+                } else {
+                    self.hidden_edge_props.entry(*id).or_default().insert(key.clone(), val.clone());
+                }
+            }
+            COp::RemoveNodeProp { id, key } => {
+                if let Some(n) = self.nodes.get_mut(id) {
+                    n.props.remove(key);
+                } else if let Some(h) = self.hidden_node_props.get_mut(id) {
+                    h.remove(key);
+                }
+            }
+            COp::RemoveEdgeProp { id, key } => {
+                if let Some(e) = self.edges.get_mut(id) {
+                    e.props.remove(key);
+                } else if let Some(h) = self.hidden_edge_props.get_mut(id) {
+                    h.remove(key);
+                }
+            }
+            COp::AddLabel { id, label } => {
+                if let Some(n) = self.nodes.get_mut(id) {
+                    n.labels.insert(label.clone());
+                }
+            }
+            COp::RemoveLabel { id, label } => {
+                if let Some(n) = self.nodes.get_mut(id) {
+                    n.labels.remove(label);
+                }
+            }
+        }
+    }
+}
+
+/// Concrete operation: ids resolved, values canonicalised.
+#[derive(Debug, Clone, PartialEq, Eq, Serialize, Deserialize)]
+pub enum COp {
+    CreateNode { id: u64, labels: Vec<String>, props: Vec<(String, String)> },
+    DeleteNode { id: u64 },
+    CreateEdge { id: u64, src: u64, dst: u64, ty: String, props: Vec<(String, String)> },
+    DeleteEdge { id: u64 },
+    SetNodeProp { id: u64, key: String, val: String },
+    SetEdgeProp { id: u64, key: String, val: String },
+    RemoveNodeProp { id: u64, key: String },
+    RemoveEdgeProp { id: u64, key: String },
+    AddLabel { id: u64, label: String },
+    RemoveLabel { id: u64, label: String },
+}
+
+// ------------------------------------------------------------------------------------------------
+// Histories
+// ------------------------------------------------------------------------------------------------
+
+pub const LABELS: [&str; 3] = ["A", "B", "C"];
+pub const KEYS: [&str; 4] = ["x", "y", "s", "w"];
+pub const TYPES: [&str; 2] = ["R", "S"];
+
+/// Target selector: index into the live ids (or, with `dead`, into the ids that were deleted).
+#[derive(Debug, Clone, Copy, PartialEq, Eq, Serialize, Deserialize)]
+pub struct T {
+    pub i: u16,
+    pub dead: bool,
+}
+
+#[derive(Debug, Clone, PartialEq, Serialize, Deserialize)]
+pub enum Op {
+    CreateNode { labels: Vec<u8> },
+    CreateNodeProps { labels: Vec<u8>, props: Vec<(u8, V)> },
+    BatchCreate { label: u8, key: u8, vectors: Vec<Vec<u32>> },
+    DeleteNode { t: T },
+    CreateEdge { s: T, d: T, ty: u8 },
+    CreateEdgeProps { s: T, d: T, ty: u8, props: Vec<(u8, V)> },
+    DeleteEdge { t: T },
+    SetNodeProp { t: T, k: u8, v: V },
+    SetEdgeProp { t: T, k: u8, v: V },
+    RemoveNodeProp { t: T, k: u8 },
+    RemoveEdgeProp { t: T, k: u8 },
+    AddLabel { t: T, l: u8 },
+    RemoveLabel { t: T, l: u8 },
+    /// `db.wal_checkpoint()`
+    Checkpoint,
+    /// `db.wal().sync()` (a durable point for C06; irrelevant for C05)
+    Sync,
+}
+
+/// Mutating statements (GQL through `session.execute`, Cypher through `execute_cypher`). Integer payloads only:
+/// the statement forms are kept to ones whose in-memory effect is unambiguous.
+#[derive(Debug, Clone, PartialEq, Eq, Serialize, Deserialize)]
+pub enum Stmt {
+    Insert { l: u8, k: u8, v: i32, cypher: bool },
+    SetByLabel { l: u8, k: u8, v: i32 },
+    Merge { l: u8, k: u8, v: i32 },
+    DetachDeleteByLabel { l: u8 },
+}
+
+#[derive(Debug, Clone, Copy, PartialEq, Eq, Serialize, Deserialize)]
+pub enum Mode {
+    /// `GrafeoDB::open(path)` (default durability)
+    Default,
+    Sync,
+    Batch { max_delay_ms: u64, max_records: u64 },
+    Adaptive { target_interval_ms: u64 },
+    NoSync,
+}
+
+#[derive(Debug, Clone, Copy, PartialEq, Eq, Serialize, Deserialize)]
+pub enum End {
+    /// `db.close()` then drop
+    Close,
+    /// drop only (Drop calls close)
+    Drop,
+    /// close twice (idempotence) then drop
+    CloseTwice,
+}
+
+#[derive(Debug, Clone, PartialEq, Serialize, Deserialize)]
+pub struct SessionSpec {
+    pub mode: Mode,
+    pub ops: Vec<Op>,
+    /// statements issued after the direct-API ops, right before the close
+    pub stmts: Vec<Stmt>,
+    pub end: End,
+}
+
+#[derive(Debug, Clone, PartialEq, Serialize, Deserialize)]
+pub struct History {
+    pub sessions: Vec<SessionSpec>,
+}
+
+fn target() -> impl Strategy<Value = T> {
+    (any::<u16>(), prop::bool::weighted(0.1)).prop_map(|(i, dead)| T { i, dead })
+}
+
+fn labels_strategy() -> impl Strategy<Value = Vec<u8>> {
+    proptest::collection::vec(0u8..3, 0..=3)
+}
+
+fn props_strategy() -> impl Strategy<Value = Vec<(u8, V)>> {
+    proptest::collection::vec((0u8..4, value_strategy()), 0..=3)
+}
+
+pub fn op_strategy(with_checkpoint: bool) -> impl Strategy<Value = Op> {
+    // without checkpoints the Checkpoint slot yields a Sync instead
+    let cp = if with_checkpoint { Op::Checkpoint } else { Op::Sync };
+    prop_oneof![
+        3 => labels_strategy().prop_map(|labels| Op::CreateNode { labels }),
+        4 => (labels_strategy(), props_strategy()).prop_map(|(labels, props)| Op::CreateNodeProps { labels, props }),
+        1 => (0u8..3, 0u8..4, proptest::collection::vec(proptest::collection::vec(f32_bits(), 0..4), 0..3))
+            .prop_map(|(label, key, vectors)| Op::BatchCreate { label, key, vectors }),
+        2 => target().prop_map(|t| Op::DeleteNode { t }),
+        3 => (target(), target(), 0u8..2).prop_map(|(s, d, ty)| Op::CreateEdge { s, d, ty }),
+        3 => (target(), target(), 0u8..2, props_strategy()).prop_map(|(s, d, ty, props)| Op::CreateEdgeProps { s, d, ty, props }),
+        2 => target().prop_map(|t| Op::DeleteEdge { t }),
+        5 => (target(), 0u8..4, value_strategy()).prop_map(|(t, k, v)| Op::SetNodeProp { t, k, v }),
+        4 => (target(), 0u8..4, value_strategy()).prop_map(|(t, k, v)| Op::SetEdgeProp { t, k, v }),
+        2 => (target(), 0u8..4).prop_map(|(t, k)| Op::RemoveNodeProp { t, k }),
+        2 => (target(), 0u8..4).prop_map(|(t, k)| Op::RemoveEdgeProp { t, k }),
+        2 => (target(), 0u8..3).prop_map(|(t, l)| Op::AddLabel { t, l }),
+        2 => (target(), 0u8..3).prop_map(|(t, l)| Op::RemoveLabel { t, l }),
+        2 => Just(cp),
+        1 => Just(Op::Sync),
+    ]
+}
+
+fn stmt_strategy() -> impl Strategy<Value = Stmt> {
+    prop_oneof![
+        3 => (0u8..3, 0u8..4, -5i32..50, any::<bool>()).prop_map(|(l, k, v, cypher)| Stmt::Insert { l, k, v, cypher }),
+        2 => (0u8..3, 0u8..4, -5i32..50).prop_map(|(l, k, v)| Stmt::SetByLabel { l, k, v }),
+        1 => (0u8..3, 0u8..4, -5i32..50).prop_map(|(l, k, v)| Stmt::Merge { l, k, v }),
+        1 => (0u8..3).prop_map(|l| Stmt::DetachDeleteByLabel { l }),
+    ]
+}
+
+pub fn mode_strategy() -> impl Strategy<Value = Mode> {
+    prop_oneof![
+        2 => Just(Mode::Default),
+        2 => Just(Mode::Sync),
+        1 => Just(Mode::Batch { max_delay_ms: 100, max_records: 1000 }),
+        1 => (1u64..6).prop_map(|n| Mode::Batch { max_delay_ms: 3_600_000, max_records: n }),
+        1 => Just(Mode::Batch { max_delay_ms: 0, max_records: 1 }),
+        2 => (1u64..200).prop_map(|t| Mode::Adaptive { target_interval_ms: t }),
+        2 => Just(Mode::NoSync),
+    ]
+}
+
+fn end_strategy() -> impl Strategy<Value = End> {
+    prop_oneof![3 => Just(End::Close), 2 => Just(End::Drop), 1 => Just(End::CloseTwice)]
+}
+
+/// `stmt_share`: probability that a session ends with a statement block (statements are not logged on the
+/// unchanged tree: known finding; the rest of the histories form the strict region).
+pub fn session_strategy(max_ops: usize, stmt_share: f64, with_checkpoint: bool) -> impl Strategy<Value = SessionSpec> {
+    (
+        mode_strategy(),
+        proptest::collection::vec(op_strategy(with_checkpoint), 0..=max_ops),
+        prop::bool::weighted(stmt_share),
+        proptest::collection::vec(stmt_strategy(), 1..=3),
+        end_strategy(),
+    )
+        .prop_map(|(mode, ops, with_stmts, stmts, end)| SessionSpec {
+            mode,
+            ops,
+            stmts: if with_stmts { stmts } else { Vec::new() },
+            end,
+        })
+}
+
+pub fn history_strategy(max_sessions: usize, max_ops: usize, stmt_share: f64) -> impl Strategy<Value = History> {
+    proptest::collection::vec(session_strategy(max_ops, stmt_share, true), 1..=max_sessions)
+        .prop_map(|sessions| History { sessions })
+}
+
+// ------------------------------------------------------------------------------------------------
+// Executing operations against the real database and the model
+// ------------------------------------------------------------------------------------------------
+
+pub fn config_for(path: &Path, mode: Mode) -> Config {
+    let c = Config::persistent(path);
+    match mode {
+        Mode::Default => c,
+        Mode::Sync => c.with_wal_durability(DurabilityMode::Sync),
+        Mode::Batch { max_delay_ms, max_records } => {
+            c.with_wal_durability(DurabilityMode::Batch { max_delay_ms, max_records })
+        }
+        Mode::Adaptive { target_interval_ms } => c.with_wal_durability(DurabilityMode::Adaptive { target_interval_ms }),
+        Mode::NoSync => c.with_wal_durability(DurabilityMode::NoSync),
+    }
+}
+
+/// Opens the database (panic → failure, `Err` → failure `c05/open-error`).
+pub fn open_db(path: &Path, mode: Mode) -> Result<GrafeoDB, Failure> {
+    let r = guard("open", || match mode {
+        Mode::Default => GrafeoDB::open(path),
+        m => GrafeoDB::with_config(config_for(path, m)),
+    })?;
+    match r {
+        Ok(db) => Ok(db),
+        Err(e) => fail("c05/open-error", format!("open({mode:?}) failed: {e}")),
+    }
+}
+
+fn pick_node(m: &Model, t: T) -> Option<u64> {
+    let dead = m.dead_nodes();
+    if t.dead && !dead.is_empty() {
+        return Some(dead[pick(t.i, dead.len())]);
+    }
+    if m.nodes.is_empty() {
+        return dead.first().copied();
+    }
+    m.nodes.keys().nth(pick(t.i, m.nodes.len())).copied()
+}
+
+fn pick_edge(m: &Model, t: T) -> Option<u64> {
+    let dead = m.dead_edges();
+    if t.dead && !dead.is_empty() {
+        return Some(dead[pick(t.i, dead.len())]);
+    }
+    if m.edges.is_empty() {
+        return dead.first().copied();
+    }
+    m.edges.keys().nth(pick(t.i, m.edges.len())).copied()
+}
+
+fn label_strs(l: &[u8]) -> Vec<&'static str> {
+    l.iter().map(|i| LABELS[*i as usize % 3]).collect()
+}
+
+/// What happened, for non-triviality accounting.
+#[derive(Debug, Default, Clone, Copy)]
+pub struct Effects {
+    pub writes: u32,
+    pub deletes: u32,
+    pub overwrites: u32,
+    pub removes: u32,
+    pub checkpoints: u32,
+    pub writes_after_checkpoint: u32,
+}
+
+/// Executes one op on the database and on every model in `models` (index 0 = the strict model, which also
+/// resolves targets and judges return values). Returns the concrete ops performed.
+pub fn apply_op(db: &GrafeoDB, models: &mut [&mut Model], op: &Op, fx: &mut Effects) -> Result<Vec<COp>, Failure> {
+    let mut cops = Vec::new();
+    let bad_ret = |what: String| -> Result<Vec<COp>, Failure> { fail("c05/return-value", what) };
+    let m0: &Model = &*models[0];
+    match op {
+        Op::CreateNode { labels } => {
+            let ls = label_strs(labels);
+            let id = guard("create_node", || db.create_node(&ls))?.as_u64();
+            check_new_node(m0, id)?;
+            cops.push(COp::CreateNode { id, labels: ls.iter().map(|s| (*s).to_string()).collect(), props: vec![] });
+        }
+        Op::CreateNodeProps { labels, props } => {
+            let ls = label_strs(labels);
+            let pv: Vec<(PropertyKey, Value)> =
+                props.iter().map(|(k, v)| (PropertyKey::new(KEYS[*k as usize % 4]), to_value(v))).collect();
+            let id = guard("create_node_with_props", || db.create_node_with_props(&ls, pv.clone()))?.as_u64();
+            check_new_node(m0, id)?;
+            cops.push(COp::CreateNode {
+                id,
+                labels: ls.iter().map(|s| (*s).to_string()).collect(),
+                props: pv.iter().map(|(k, v)| (k.as_str().to_string(), canon(v))).collect(),
+            });
+        }
+        Op::BatchCreate { label, key, vectors } => {
+            let vecs: Vec<Vec<f32>> = vectors.iter().map(|v| v.iter().map(|b| f32::from_bits(*b)).collect()).collect();
+            let l = LABELS[*label as usize % 3];
+            let k = KEYS[*key as usize % 4];
+            let ids = guard("batch_create_nodes", || db.batch_create_nodes(l, k, vecs.clone()))?;
+            if ids.len() != vecs.len() {
+                return bad_ret(format!("batch_create_nodes returned {} ids for {} vectors", ids.len(), vecs.len()));
+            }
+            let mut seen = BTreeSet::new();
+            for (id, v) in ids.iter().zip(vecs.iter()) {
+                let id = id.as_u64();
+                check_new_node(m0, id)?;
+                if !seen.insert(id) {
+                    return fail("c05/id-collision", format!("batch_create_nodes handed out node id {id} twice"));
+                }
+                cops.push(COp::CreateNode {
+                    id,
+                    labels: vec![l.to_string()],
+                    props: vec![(k.to_string(), canon(&Value::from(v.as_slice())))],
+                });
+            }
+        }
+        Op::DeleteNode { t } => {
+            if let Some(id) = pick_node(m0, *t) {
+                let r = guard("delete_node", || db.delete_node(NodeId::new(id)))?;
+                let want = m0.nodes.contains_key(&id);
+                if r != want {
+                    return bad_ret(format!("delete_node({id}) returned {r}, node live in model: {want}"));
+                }
+                if r {
+                    fx.deletes += 1;
+                }
+                cops.push(COp::DeleteNode { id });
+            }
+        }
+        Op::CreateEdge { s, d, ty } => {
+            if let (Some(src), Some(dst)) = (pick_node(m0, *s), pick_node(m0, *d)) {
+                let tyv = TYPES[*ty as usize % 2];
+                let id = guard("create_edge", || db.create_edge(NodeId::new(src), NodeId::new(dst), tyv))?.as_u64();
+                check_new_edge(m0, id)?;
+                cops.push(COp::CreateEdge { id, src, dst, ty: tyv.to_string(), props: vec![] });
+            }
+        }
+        Op::CreateEdgeProps { s, d, ty, props } => {
+            if let (Some(src), Some(dst)) = (pick_node(m0, *s), pick_node(m0, *d)) {
+                let tyv = TYPES[*ty as usize % 2];
+                let pv: Vec<(PropertyKey, Value)> =
+                    props.iter().map(|(k, v)| (PropertyKey::new(KEYS[*k as usize % 4]), to_value(v))).collect();
+                let id = guard("create_edge_with_props", || {
+                    db.create_edge_with_props(NodeId::new(src), NodeId::new(dst), tyv, pv.clone())
+                })?
+                .as_u64();
+                check_new_edge(m0, id)?;
+                cops.push(COp::CreateEdge {
+                    id,
+                    src,
+                    dst,
+                    ty: tyv.to_string(),
+                    props: pv.iter().map(|(k, v)| (k.as_str().to_string(), canon(v))).collect(),
+                });
+            }
+        }
+        Op::DeleteEdge { t } => {
+            if let Some(id) = pick_edge(m0, *t) {
+                let r = guard("delete_edge", || db.delete_edge(EdgeId::new(id)))?;
+                let want = m0.edges.contains_key(&id);
+                if r != want {
+                    return bad_ret(format!("delete_edge({id}) returned {r}, edge live in model: {want}"));
+                }
+                if r {
+                    fx.deletes += 1;
+                }
+                cops.push(COp::DeleteEdge { id });
+            }
+        }
+        Op::SetNodeProp { t, k, v } => {
+            if let Some(id) = pick_node(m0, *t) {
+                let key = KEYS[*k as usize % 4];
+                let val = to_value(v);
+                if m0.nodes.get(&id).is_some_and(|n| n.props.contains_key(key)) {
+                    fx.overwrites += 1;
+                }
+                guard("set_node_property", || db.set_node_property(NodeId::new(id), key, val.clone()))?;
+                cops.push(COp::SetNodeProp { id, key: key.to_string(), val: canon(&val) });
+            }
+        }
+        Op::SetEdgeProp { t, k, v } => {
+            if let Some(id) = pick_edge(m0, *t) {
+                let key = KEYS[*k as usize % 4];
+                let val = to_value(v);
+                if m0.edges.get(&id).is_some_and(|n| n.props.contains_key(key)) {
+                    fx.overwrites += 1;
+                }
+                guard("set_edge_property", || db.set_edge_property(EdgeId::new(id), key, val.clone()))?;
+                cops.push(COp::SetEdgeProp { id, key: key.to_string(), val: canon(&val) });
+            }
+        }
+        Op::RemoveNodeProp { t, k } => {
+            if let Some(id) = pick_node(m0, *t) {
+                let key = KEYS[*k as usize % 4];
+                let r = guard("remove_node_property", || db.remove_node_property(NodeId::new(id), key))?;
+                let want = m0.nodes.get(&id).is_some_and(|n| n.props.contains_key(key));
+                // a deleted node's properties are unobservable; the return value is only specified for live nodes
+                if m0.nodes.contains_key(&id) && r != want {
+                    return bad_ret(format!("remove_node_property({id},{key}) returned {r}, model has it: {want}"));
+                }
+                if want {
+                    fx.removes += 1;
+                }
+                cops.push(COp::RemoveNodeProp { id, key: key.to_string() });
+            }
+        }
+        Op::RemoveEdgeProp { t, k } => {
+            if let Some(id) = pick_edge(m0, *t) {
+                let key = KEYS[*k as usize % 4];
+                let r = guard("remove_edge_property", || db.remove_edge_property(EdgeId::new(id), key))?;
+                let want = m0.edges.get(&id).is_some_and(|n| n.props.contains_key(key));
+                if m0.edges.contains_key(&id) && r != want {
+                    return bad_ret(format!("remove_edge_property({id},{key}) returned {r}, model has it: {want}"));
+                }
+                if want {
+                    fx.removes += 1;
+                }
+                cops.push(COp::RemoveEdgeProp { id, key: key.to_string() });
+            }
+        }
+        Op::AddLabel { t, l } => {
+            if let Some(id) = pick_node(m0, *t) {
+                let label = LABELS[*l as usize % 3];
+                let r = guard("add_node_label", || db.add_node_label(NodeId::new(id), label))?;
+                let want = m0.nodes.get(&id).is_some_and(|n| !n.labels.contains(label));
+                if r != want {
+                    return bad_ret(format!("add_node_label({id},{label}) returned {r}, model expects {want}"));
+                }
+                cops.push(COp::AddLabel { id, label: label.to_string() });
+            }
+        }
+        Op::RemoveLabel { t, l } => {
+            if let Some(id) = pick_node(m0, *t) {
+                let label = LABELS[*l as usize % 3];
+                let r = guard("remove_node_label", || db.remove_node_label(NodeId::new(id), label))?;
+                let want = m0.nodes.get(&id).is_some_and(|n| n.labels.contains(label));
+                if r != want {
+                    return bad_ret(format!("remove_node_label({id},{label}) returned {r}, model expects {want}"));
+                }
+                if r {
+                    fx.deletes += 1;
+                }
+                cops.push(COp::RemoveLabel { id, label: label.to_string() });
+            }
+        }
+        Op::Checkpoint => {
+            match guard("wal_checkpoint", || db.wal_checkpoint())? {
+                Ok(()) => {}
+                Err(e) => return fail("c05/checkpoint-error", format!("wal_checkpoint failed: {e}")),
+            }
+            fx.checkpoints += 1;
+        }
+        Op::Sync => {
+            if let Some(w) = db.wal() {
+                match guard("wal.sync", || w.sync())? {
+                    Ok(()) => {}
+                    Err(e) => return fail("c05/sync-error", format!("wal().sync() failed: {e}")),
+                }
+            }
+        }
+    }
+    if !cops.is_empty() {
+        fx.writes += 1;
+        if fx.checkpoints > 0 {
+            fx.writes_after_checkpoint += 1;
+        }
+    }
+    for m in models.iter_mut() {
+        for c in &cops {
+            m.apply(c);
+        }
+    }
+    Ok(cops)
+}
+
+fn check_new_node(m: &Model, id: u64) -> Result<(), Failure> {
+    if m.nodes.contains_key(&id) {
+        return fail("c05/id-collision", format!("create handed out node id {id}, which is a live node"));
+    }
+    Ok(())
+}
+
+fn check_new_edge(m: &Model, id: u64) -> Result<(), Failure> {
+    if m.edges.contains_key(&id) {
+        return fail("c05/id-collision", format!("create handed out edge id {id}, which is a live edge"));
+    }
+    Ok(())
+}
+
+pub fn stmt_text(s: &Stmt) -> (String, bool) {
+    match s {
+        Stmt::Insert { l, k, v, cypher } => {
+            let (l, k) = (LABELS[*l as usize % 3], KEYS[*k as usize % 4]);
+            if *cypher { (format!("CREATE (:{l} {{{k}: {v}}})"), true) } else { (format!("INSERT (:{l} {{{k}: {v}}})"), false) }
+        }
+        Stmt::SetByLabel { l, k, v } => {
+            (format!("MATCH (n:{}) SET n.{} = {v}", LABELS[*l as usize % 3], KEYS[*k as usize % 4]), false)
+        }
+        Stmt::Merge { l, k, v } => (format!("MERGE (n:{} {{{}: {v}}})", LABELS[*l as usize % 3], KEYS[*k as usize % 4]), false),
+        Stmt::DetachDeleteByLabel { l } => (format!("MATCH (n:{}) DETACH DELETE n", LABELS[*l as usize % 3]), false),
+    }
+}
+
+/// Executes a statement. The model is *resynchronised from the live database* afterwards (the in-memory
+/// semantics of statements belong to C08/C01, not to this property): what C05 demands is only that the state the
+/// database shows before the close is the state it shows after the reopen.
+pub fn apply_stmt(db: &GrafeoDB, m: &mut Model, s: &Stmt) -> Result<bool, Failure> {
+    let (text, cypher) = stmt_text(s);
+    let before = guard("dump", || dump_db(db))?;
+    let r = guard("execute", || if cypher { db.execute_cypher(&text).map(|_| ()) } else { db.execute(&text).map(|_| ()) })?;
+    if r.is_err() {
+        // a refused statement must not change anything we rely on; resync anyway
+    }
+    let after = guard("dump", || dump_db(db))?;
+    let changed = after != before;
+    let ever_n = m.ever_nodes.clone();
+    let ever_e = m.ever_edges.clone();
+    let (hn, he) = (std::mem::take(&mut m.hidden_node_props), std::mem::take(&mut m.hidden_edge_props));
+    *m = Model::from_dump(&after);
+    m.ever_nodes.extend(ever_n);
+    m.ever_edges.extend(ever_e);
+    m.hidden_node_props = hn.into_iter().filter(|(id, _)| !m.nodes.contains_key(id)).collect();
+    m.hidden_edge_props = he.into_iter().filter(|(id, _)| !m.edges.contains_key(id)).collect();
+    Ok(changed)
+}
+
+// ------------------------------------------------------------------------------------------------
+// Sub-check `reopen`
+// ------------------------------------------------------------------------------------------------
+
+fn close_db(db: GrafeoDB, end: End) -> Result<(), Failure> {
+    match end {
+        End::Drop => {}
+        End::Close | End::CloseTwice => {
+            let n = if end == End::CloseTwice { 2 } else { 1 };
+            for _ in 0..n {
+                if let Err(e) = guard("close", || db.close())? {
+                    return fail("c05/close-error", format!("close failed: {e}"));
+                }
+            }
+        }
+    }
+    guard("drop", move || drop(db))
+}
+
+/// Chooses the signature for a reopened state that differs from the strict model: a known defect's signature only
+/// when the dump equals exactly what that defect alone predicts.
+fn classify_reopen(dump: &Dump, strict: &Model, no_stmt: &Model, stmts_changed: bool, ctx: &str) -> Failure {
+    let want = strict.dump();
+    if stmts_changed && *dump == no_stmt.dump() {
+        return Failure {
+            signature: "c05/statements-not-logged".into(),
+            what: format!("{ctx}: the reopened database lacks exactly the effects of the mutating statements: {}", diff_dumps(dump, &want)),
+        };
+    }
+    Failure { signature: "c05/reopen-mismatch".into(), what: format!("{ctx}: {}", diff_dumps(dump, &want)) }
+}
+
+pub fn check_history(h: &History) -> CaseResult {
+    let dir = scratch_dir();
+    let path = dir.path().join("db");
+    let mut m = Model::default();
+    let mut fx = Effects::default();
+    let mut nontrivial_reopen = false;
+    let mut any_stmt = false;
+    let mut mid_checkpoint = false;
+    let mut mutated_before = false; // delete/overwrite happened before some reopen
+    let mut checkpoint_then_writes = false;
+    // model of what the log holds if statements are not logged
+    let mut no_stmt = m.clone();
+    let mut stmts_changed = false;
+    for (si, s) in h.sessions.iter().enumerate() {
+        let db = open_db(&path, s.mode)?;
+        let d = guard("dump", || dump_db(&db))?;
+        if si > 0 {
+            if d != m.dump() {
+                return Err(classify_reopen(&d, &m, &no_stmt, stmts_changed, &format!("reopen #{si}")));
+            }
+            if mutated_before {
+                nontrivial_reopen = true;
+            }
+            if fx.writes > 0 {
+                // the close before this open was a checkpoint; writes in this session come after it
+                fx.checkpoints += 1;
+            }
+        }
+        no_stmt = m.clone();
+        stmts_changed = false;
+        let cp_before = fx.checkpoints;
+        for op in &s.ops {
+            let mut models: [&mut Model; 2] = {
+                let (a, b) = (&mut m, &mut no_stmt);
+                [a, b]
+            };
+            apply_op(&db, &mut models, op, &mut fx)?;
+            if matches!(op, Op::Checkpoint) && fx.checkpoints > cp_before {
+                mid_checkpoint = true;
+            }
+        }
+        for st in &s.stmts {
+            any_stmt = true;
+            if apply_stmt(&db, &mut m, st)? {
+                stmts_changed = true;
+                fx.writes += 1;
+            }
+        }
+        if fx.deletes + fx.overwrites + fx.removes > 0 {
+            mutated_before = true;
+        }
+        if fx.writes_after_checkpoint > 0 {
+            checkpoint_then_writes = true;
+        }
+        let live = guard("dump", || dump_db(&db))?;
+        if live != m.dump() {
+            return fail("c05/live-vs-model", format!("session {si}: before close: {}", diff_dumps(&live, &m.dump())));
+        }
+        close_db(db, s.end)?;
+    }
+    // final reopen, then hand out fresh ids
+    let last_mode = h.sessions.last().map_or(Mode::Default, |s| s.mode);
+    let db = open_db(&path, last_mode)?;
+    let d = guard("dump", || dump_db(&db))?;
+    if d != m.dump() {
+        return Err(classify_reopen(&d, &m, &no_stmt, stmts_changed, "final reopen"));
+    }
+    if mutated_before {
+        nontrivial_reopen = true;
+    }
+    {
+        let mut models: [&mut Model; 1] = [&mut m];
+        apply_op(&db, &mut models, &Op::CreateNode { labels: vec![0] }, &mut fx)?;
+        apply_op(&db, &mut models, &Op::CreateEdge { s: T { i: 0, dead: false }, d: T { i: 65535, dead: false }, ty: 0 }, &mut fx)?;
+    }
+    let live = guard("dump", || dump_db(&db))?;
+    if live != m.dump() {
+        return fail("c05/live-vs-model", format!("after final reopen: {}", diff_dumps(&live, &m.dump())));
+    }
+    close_db(db, End::Close)?;
+    let db = open_db(&path, Mode::Default)?;
+    let d = guard("dump", || dump_db(&db))?;
+    if d != m.dump() {
+        return Err(classify_reopen(&d, &m, &m, false, "reopen after post-recovery writes"));
+    }
+    close_db(db, End::Drop)?;
+
+    let class = if any_stmt {
+        "with-statements"
+    } else if mid_checkpoint {
+        "direct/mid-session-checkpoint"
+    } else if h.sessions.len() > 1 {
+        "direct/multi-cycle"
+    } else {
+        "direct/one-cycle"
+    };
+    ok(nontrivial_reopen && checkpoint_then_writes, class, hash_dbg(h))
+}
+
+// ------------------------------------------------------------------------------------------------
+// Sub-check `wal_manager`
+// ------------------------------------------------------------------------------------------------
+
+#[derive(Debug, Clone, PartialEq, Serialize, Deserialize)]
+pub enum RecSpec {
+    CreateNode { id: u8, labels: Vec<u8> },
+    DeleteNode { id: u8 },
+    CreateEdge { id: u8, src: u8, dst: u8, ty: u8 },
+    DeleteEdge { id: u8 },
+    SetNodeProp { id: u8, k: u8, v: V },
+    SetEdgeProp { id: u8, k: u8, v: V },
+    AddLabel { id: u8, l: u8 },
+    RemoveLabel { id: u8, l: u8 },
+}
+
+pub fn to_record(r: &RecSpec) -> WalRecord {
+    match r {
+        RecSpec::CreateNode { id, labels } => WalRecord::CreateNode {
+            id: NodeId::new(u64::from(*id)),
+            labels: label_strs(labels).iter().map(|s| (*s).to_string()).collect(),
+        },
+        RecSpec::DeleteNode { id } => WalRecord::DeleteNode { id: NodeId::new(u64::from(*id)) },
+        RecSpec::CreateEdge { id, src, dst, ty } => WalRecord::CreateEdge {
+            id: EdgeId::new(u64::from(*id)),
+            src: NodeId::new(u64::from(*src)),
+            dst: NodeId::new(u64::from(*dst)),
+            edge_type: TYPES[*ty as usize % 2].to_string(),
+        },
+        RecSpec::DeleteEdge { id } => WalRecord::DeleteEdge { id: EdgeId::new(u64::from(*id)) },
+        RecSpec::SetNodeProp { id, k, v } => WalRecord::SetNodeProperty {
+            id: NodeId::new(u64::from(*id)),
+            key: KEYS[*k as usize % 4].to_string(),
+            value: to_value(v),
+        },
+        RecSpec::SetEdgeProp { id, k, v } => WalRecord::SetEdgeProperty {
+            id: EdgeId::new(u64::from(*id)),
+            key: KEYS[*k as usize % 4].to_string(),
+            value: to_value(v),
+        },
+        RecSpec::AddLabel { id, l } => {
+            WalRecord::AddNodeLabel { id: NodeId::new(u64::from(*id)), label: LABELS[*l as usize % 3].to_string() }
+        }
+        RecSpec::RemoveLabel { id, l } => {
+            WalRecord::RemoveNodeLabel { id: NodeId::new(u64::from(*id)), label: LABELS[*l as usize % 3].to_string() }
+        }
+    }
+}
+
+/// Canonical text of a data record (None for transaction-control records).
+pub fn record_text(r: &WalRecord) -> Option<String> {
+    Some(match r {
+        WalRecord::CreateNode { id, labels } => format!("CN {} {labels:?}", id.as_u64()),
+        WalRecord::DeleteNode { id } => format!("DN {}", id.as_u64()),
+        WalRecord::CreateEdge { id, src, dst, edge_type } => {
+            format!("CE {} {} {} {edge_type}", id.as_u64(), src.as_u64(), dst.as_u64())
+        }
+        WalRecord::DeleteEdge { id } => format!("DE {}", id.as_u64()),
+        WalRecord::SetNodeProperty { id, key, value } => format!("SN {} {key} {}", id.as_u64(), canon(value)),
+        WalRecord::SetEdgeProperty { id, key, value } => format!("SE {} {key} {}", id.as_u64(), canon(value)),
+        WalRecord::AddNodeLabel { id, label } => format!("AL {} {label}", id.as_u64()),
+        WalRecord::RemoveNodeLabel { id, label } => format!("RL {} {label}", id.as_u64()),
+        WalRecord::TxCommit { .. } | WalRecord::TxAbort { .. } | WalRecord::Checkpoint { .. } => return None,
+        #[allow(unreachable_patterns)]
+        other => format!("{other:?}"),
+    })
+}
+
+#[derive(Debug, Clone, PartialEq, Serialize, Deserialize)]
+pub enum WStep {
+    Log(RecSpec),
+    /// what `GrafeoDB::wal_checkpoint` does: commit marker, checkpoint, sync
+    Checkpoint,
+    /// `WalManager::rotate()`
+    Rotate,
+    /// what `GrafeoDB::close` + reopen does: commit marker, checkpoint, sync, drop the manager, recover, reopen
+    Reopen,
+}
+
+#[derive(Debug, Clone, Copy, PartialEq, Eq, Serialize, Deserialize)]
+pub enum WMode {
+    Sync,
+    Batch { max_records: u64 },
+    Adaptive,
+    NoSync,
+}
+
+#[derive(Debug, Clone, PartialEq, Serialize, Deserialize)]
+pub struct WalCase {
+    pub max_log_size: u64,
+    pub mode: WMode,
+    pub steps: Vec<WStep>,
+}
+
+fn rec_strategy() -> impl Strategy<Value = RecSpec> {
+    prop_oneof![
+        3 => (0u8..8, labels_strategy()).prop_map(|(id, labels)| RecSpec::CreateNode { id, labels }),
+        1 => (0u8..8).prop_map(|id| RecSpec::DeleteNode { id }),
+        2 => (0u8..8, 0u8..8, 0u8..8, 0u8..2).prop_map(|(id, src, dst, ty)| RecSpec::CreateEdge { id, src, dst, ty }),
+        1 => (0u8..8).prop_map(|id| RecSpec::DeleteEdge { id }),
+        4 => (0u8..8, 0u8..4, value_strategy()).prop_map(|(id, k, v)| RecSpec::SetNodeProp { id, k, v }),
+        2 => (0u8..8, 0u8..4, value_strategy()).prop_map(|(id, k, v)| RecSpec::SetEdgeProp { id, k, v }),
+        1 => (0u8..8, 0u8..3).prop_map(|(id, l)| RecSpec::AddLabel { id, l }),
+        1 => (0u8..8, 0u8..3).prop_map(|(id, l)| RecSpec::RemoveLabel { id, l }),
+    ]
+}
+
+pub fn wal_case_strategy(max_steps: usize) -> impl Strategy<Value = WalCase> {
+    let size = prop_oneof![
+        // half of the cases never rotate by size (strict region); the others rotate at 64 B … 4 KiB
+        5 => Just(64u64 * 1024 * 1024),
+        1 => Just(64u64),
+        2 => 64u64..512,
+        2 => 512u64..4096,
+    ];
+    let mode = prop_oneof![
+        Just(WMode::Sync),
+        (1u64..5).prop_map(|n| WMode::Batch { max_records: n }),
+        Just(WMode::Adaptive),
+        Just(WMode::NoSync)
+    ];
+    let step = prop_oneof![
+        12 => rec_strategy().prop_map(WStep::Log),
+        2 => Just(WStep::Checkpoint),
+        1 => Just(WStep::Rotate),
+        2 => Just(WStep::Reopen),
+    ];
+    (size, mode, proptest::collection::vec(step, 1..=max_steps)).prop_map(|(max_log_size, mode, mut steps)| {
+        if max_log_size >= 64 * 1024 * 1024 {
+            // strict half: no rotation at all (explicit rotate() only in the rotating half)
+            steps.retain(|s| *s != WStep::Rotate);
+            if steps.is_empty() {
+                steps.push(WStep::Checkpoint);
+            }
+        }
+        WalCase { max_log_size, mode, steps }
+    })
+}
+
+fn wal_config(c: &WalCase) -> WalConfig {
+    WalConfig {
+        durability: match c.mode {
+            WMode::Sync => WalDurability::Sync,
+            WMode::Batch { max_records } => WalDurability::Batch { max_delay_ms: 3_600_000, max_records },
+            WMode::Adaptive => WalDurability::Adaptive { target_interval_ms: 50 },
+            WMode::NoSync => WalDurability::NoSync,
+        },
+        max_log_size: c.max_log_size,
+        ..WalConfig::default()
+    }
+}
+
+/// Independent reader of the on-disk log files: (sequence, data-record texts) per file, in sequence order.
+pub fn read_log_files(dir: &Path) -> Vec<(u64, Vec<String>)> {
+    let mut files: Vec<(u64, std::path::PathBuf)> = Vec::new();
+    if let Ok(rd) = std::fs::read_dir(dir) {
+        for e in rd.flatten() {
+            let name = e.file_name().to_string_lossy().to_string();
+            if let Some(seq) = name.strip_prefix("wal_").and_then(|s| s.strip_suffix(".log")).and_then(|s| s.parse::<u64>().ok()) {
+                files.push((seq, e.path()));
+            }
+        }
+    }
+    files.sort();
+    files
+        .into_iter()
+        .map(|(seq, p)| {
+            let bytes = std::fs::read(&p).unwrap_or_default();
+            (seq, parse_log(&bytes).into_iter().filter_map(|(_, _, r)| record_text(&r)).collect())
+        })
+        .collect()
+}
+
+/// Parses a log image: (start offset, end offset, record) of every record up to the first invalid one.
+pub fn parse_log(bytes: &[u8]) -> Vec<(usize, usize, WalRecord)> {
+    let mut out = Vec::new();
+    let mut pos = 0usize;
+    while pos + 4 <= bytes.len() {
+        let len = u32::from_le_bytes([bytes[pos], bytes[pos + 1], bytes[pos + 2], bytes[pos + 3]]) as usize;
+        let Some(end) = pos.checked_add(8).and_then(|x| x.checked_add(len)) else { break };
+        if end > bytes.len() {
+            break;
+        }
+        let data = &bytes[pos + 4..pos + 4 + len];
+        let crc = u32::from_le_bytes([bytes[end - 4], bytes[end - 3], bytes[end - 2], bytes[end - 1]]);
+        if crc32fast::hash(data) != crc {
+            break;
+        }
+        let Ok((rec, _)) = bincode::serde::decode_from_slice::<WalRecord, _>(data, bincode::config::standard()) else { break };
+        out.push((pos, end, rec));
+        pos = end;
+    }
+    out
+}
+
+fn wal_err<T>(ctx: &str, r: Result<grafeo_common::utils::error::Result<T>, Failure>) -> Result<T, Failure> {
+    match r? {
+        Ok(v) => Ok(v),
+        Err(e) => fail(format!("c05/wal/{ctx}-error"), format!("{ctx} failed: {e}")),
+    }
+}
+
+pub fn check_wal_case(c: &WalCase) -> CaseResult {
+    let dir = scratch_dir();
+    let wdir = dir.path().join("wal");
+    let cfg = wal_config(c);
+    let mut wal = Some(wal_err("open", guard("WalManager::with_config", || WalManager::with_config(&wdir, cfg.clone())))?);
+    let mut expected: Vec<String> = Vec::new();
+    let tx = TxId::new(1);
+    let mut reopens = 0u32;
+    let mut checkpoints_mid = 0u32;
+    let mut logged_after_cp = false;
+    let mut rotated = false;
+    let mut steps = c.steps.clone();
+    steps.push(WStep::Reopen);
+    for st in &steps {
+        let w = wal.as_ref().unwrap();
+        match st {
+            WStep::Log(r) => {
+                let rec = to_record(r);
+                wal_err("log", guard("log", || w.log(&rec)))?;
+                expected.push(record_text(&rec).unwrap());
+                if checkpoints_mid + reopens > 0 {
+                    logged_after_cp = true;
+                }
+            }
+            WStep::Checkpoint => {
+                wal_err("log", guard("log", || w.log(&WalRecord::TxCommit { tx_id: tx })))?;
+                wal_err("checkpoint", guard("checkpoint", || w.checkpoint(tx, EpochId::new(0))))?;
+                wal_err("sync", guard("sync", || w.sync()))?;
+                checkpoints_mid += 1;
+            }
+            WStep::Rotate => {
+                wal_err("rotate", guard("rotate", || w.rotate()))?;
+            }
+            WStep::Reopen => {
+                wal_err("log", guard("log", || w.log(&WalRecord::TxCommit { tx_id: tx })))?;
+                wal_err("checkpoint", guard("checkpoint", || w.checkpoint(tx, EpochId::new(0))))?;
+                wal_err("sync", guard("sync", || w.sync()))?;
+                let old = wal.take();
+                guard("drop", move || drop(old))?;
+                let got: Vec<String> = wal_err("recover", guard("recover", || WalRecovery::new(&wdir).recover()))?
+                    .iter()
+                    .filter_map(record_text)
+                    .collect();
+                let files = read_log_files(&wdir);
+                if files.len() > 1 {
+                    rotated = true;
+                }
+                if got != expected {
+                    // Known defect: checkpoint.meta names the *current* file and recovery skips every older file,
+                    // although nothing but the log holds their records. Predicted answer: exactly the records of
+                    // the files with sequence >= the checkpoint's sequence.
+                    let meta_seq = WalRecovery::new(&wdir).checkpoint().map(|m| m.log_sequence);
+                    if let Some(ms) = meta_seq {
+                        let all: Vec<String> = files.iter().flat_map(|(_, r)| r.iter().cloned()).collect();
+                        let kept: Vec<String> =
+                            files.iter().filter(|(s, _)| *s >= ms).flat_map(|(_, r)| r.iter().cloned()).collect();
+                        if all == expected && got == kept && ms > 0 && kept.len() < all.len() {
+                            return fail(
+                                "c05/rotation-checkpoint-skips-older-files",
+                                format!(
+                                    "after rotation to wal_{ms:08}.log and a checkpoint, recovery returned {} of {} logged records: \
+                                     everything in files before sequence {ms} is skipped although no other copy exists",
+                                    got.len(),
+                                    expected.len()
+                                ),
+                            );
+                        }
+                    }
+                    let first = got.iter().zip(expected.iter()).position(|(a, b)| a != b).unwrap_or(got.len().min(expected.len()));
+                    return fail(
+                        "c05/wal/recovered-records-mismatch",
+                        format!(
+                            "recovered {} records, logged {}; first difference at #{first}: got {:?} want {:?}",
+                            got.len(),
+                            expected.len(),
+                            got.get(first),
+                            expected.get(first)
+                        ),
+                    );
+                }
+                reopens += 1;
+                wal = Some(wal_err("open", guard("WalManager::with_config", || WalManager::with_config(&wdir, cfg.clone())))?);
+            }
+        }
+    }
+    let old = wal.take();
+    guard("drop", move || drop(old))?;
+    let class = if rotated { "rotated" } else if checkpoints_mid > 0 { "single-file/mid-checkpoint" } else { "single-file" };
+    ok(logged_after_cp && expected.len() >= 2, class, hash_dbg(c))
+}
+
+// ------------------------------------------------------------------------------------------------
+// Sub-check `rotation_64mib`
+// ------------------------------------------------------------------------------------------------
+
+#[derive(Debug, Clone, PartialEq, Serialize, Deserialize)]
+pub struct BigCase {
+    /// number of 1 MiB property writes before the close (rotation happens after 64 MiB)
+    pub writes: u32,
+    /// take an explicit checkpoint after this many writes (0 = none)
+    pub checkpoint_after: u32,
+    pub mode: Mode,
+}
+
+pub fn check_big(c: &BigCase) -> CaseResult {
+    let dir = scratch_dir();
+    let path = dir.path().join("db");
+    let db = open_db(&path, c.mode)?;
+    let mut m = Model::default();
+    let mut fx = Effects::default();
+    let mut models: [&mut Model; 1] = [&mut m];
+    apply_op(&db, &mut models, &Op::CreateNodeProps { labels: vec![0], props: vec![(0, V::Int(1))] }, &mut fx)?;
+    let wal_dir = path.join("wal");
+    let mut first_after_rotation: Option<u32> = None;
+    let mut max_seq = 0u64;
+    for i in 0..c.writes {
+        let payload = vec![(i % 251) as u8; 1 << 20];
+        apply_op(
+            &db,
+            &mut models,
+            &Op::CreateNodeProps { labels: vec![1], props: vec![(1, V::Int(i64::from(i))), (2, V::Bytes(payload))] },
+            &mut fx,
+        )?;
+        let seq = max_log_seq(&wal_dir);
+        if seq > max_seq {
+            max_seq = seq;
+            first_after_rotation = Some(i + 1);
+        }
+        if c.checkpoint_after == i + 1 {
+            apply_op(&db, &mut models, &Op::Checkpoint, &mut fx)?;
+        }
+    }
+    close_db(db, End::Close)?;
+    let db = open_db(&path, c.mode)?;
+    let d = guard("dump", || dump_db(&db))?;
+    close_db(db, End::Drop)?;
+    let want = m.dump();
+    if d != want {
+        if let Some(k) = first_after_rotation {
+            // predicted by the rotation+checkpoint defect: only nodes created after the rotation survive
+            let kept: Vec<NodeDump> = want.nodes.iter().filter(|n| n.id > u64::from(k)).cloned().collect();
+            if d.edges.is_empty() && d.nodes == kept && kept.len() < want.nodes.len() {
+                return fail(
+                    "c05/rotation-checkpoint-skips-older-files",
+                    format!(
+                        "after writing {} MiB (log rotated to wal_00000001.log) and close, the reopened database holds {} of {} nodes: \
+                         everything logged in wal_00000000.log is skipped by recovery",
+                        c.writes,
+                        d.nodes.len(),
+                        want.nodes.len()
+                    ),
+                );
+            }
+        }
+        return fail("c05/reopen-mismatch", format!("64 MiB case: {}", truncate_diff(&d, &want)));
+    }
+    ok(first_after_rotation.is_some(), if first_after_rotation.is_some() { "rotated" } else { "no-rotation" }, hash_dbg(c))
+}
+
+fn max_log_seq(dir: &Path) -> u64 {
+    let mut m = 0;
+    if let Ok(rd) = std::fs::read_dir(dir) {
+        for e in rd.flatten() {
+            let name = e.file_name().to_string_lossy().to_string();
+            if let Some(seq) = name.strip_prefix("wal_").and_then(|s| s.strip_suffix(".log")).and_then(|s| s.parse::<u64>().ok()) {
+                m = m.max(seq);
+            }
+        }
+    }
+    m
+}
+
+fn truncate_diff(d: &Dump, want: &Dump) -> String {
+    // payloads are 1 MiB; report ids only
+    let g: Vec<u64> = d.nodes.iter().map(|n| n.id).collect();
+    let w: Vec<u64> = want.nodes.iter().map(|n| n.id).collect();
+    format!("node ids got {g:?} want {w:?}")
+}
+
+// ------------------------------------------------------------------------------------------------
 
 pub fn run(r: &mut Run) {
-    r.inconclusive("C05: check not built yet");
+    r.level = "exploration";
+    r.rule = "reopen: histories of 1-5 open/close cycles (every durability mode, close/drop/double close) of direct-API ops \
+              (create/delete node+edge, set/remove property with every Value variant incl. NaN payloads, nested lists/maps, \
+              Bytes, Timestamp, Vector, empty string; add/remove label; batch_create_nodes; wal_checkpoint; wal().sync(); \
+              10% of targets are deleted ids), 5% of sessions (about 13% of histories) end with a block of mutating GQL/Cypher \
+              statements (known finding region; the rest is the strict region). Non-trivial = a reopen after >= 1 delete / property \
+              overwrite / removal AND >= 1 checkpoint (explicit or close) followed by more writes. wal_manager: half of \
+              the cases never rotate (strict), half rotate at 64 B..4 KiB (known-finding region); non-trivial = records \
+              logged after a checkpoint or reopen. Distinct by hash of the case."
+        .into();
+    r.assumptions.push("delete_node does not cascade to edges (LpgStore::delete_node note; DETACH is explicit)".into());
+    r.assumptions.push("labels of a deleted or absent node are unobservable (ops are no-ops); properties are keyed by id in the store: a property written to an absent id stays hidden until an entity with that id is created, and a delete clears it (modelled the same way)".into());
+    r.assumptions.push(
+        "statements: the model is resynchronised from the live database after each statement (their in-memory semantics \
+         belong to C08); only 'state before close == state after reopen' is demanded"
+            .into(),
+    );
+    r.assumptions.push("id clause: a freshly handed-out id must not equal the id of an existing (live) node/edge; reuse of the id of a deleted entity is not demanded against (the statement says 'existing ones')".into());
+    r.assumptions.push("wal_manager drives WalManager the way GrafeoDB does: TxCommit before every checkpoint, checkpoint epoch 0".into());
+    let _ = Findings::load; // (findings are applied by the driver from the signature)
+
+    let thorough = r.is_thorough();
+    let (max_sessions, max_ops) = if thorough { (5, 60) } else { (5, 16) };
+    r.subcheck("reopen", r.cases(1500, 40_000), move || history_strategy(max_sessions, max_ops, 0.05), check_history);
+
+    let max_steps = if thorough { 120 } else { 40 };
+    r.subcheck("wal_manager", r.cases(4000, 150_000), move || wal_case_strategy(max_steps), check_wal_case);
+
+    let mut big = vec![BigCase { writes: 70, checkpoint_after: 0, mode: Mode::Default }];
+    if thorough {
+        big.push(BigCase { writes: 70, checkpoint_after: 30, mode: Mode::Sync });
+        big.push(BigCase { writes: 140, checkpoint_after: 100, mode: Mode::NoSync });
+        big.push(BigCase { writes: 60, checkpoint_after: 0, mode: Mode::Default });
+    }
+    r.enumerate("rotation_64mib", big, false, check_big);
 }
